@@ -11,8 +11,19 @@
 (* YAML text.  The domain is every order-preserving selection of the six sections (client always) with all  *)
 (* kinds "ok", and everything up to Depth deviations away from one of them: another kind for one section,   *)
 (* two neighbours swapped, a section duplicated, an unknown section inserted, the client section dropped.   *)
+(*                                                                                                         *)
+(* Family "values" goes below the section level: for every place where the per-section parsers inspect a   *)
+(* node kind - the value of a command / tool / node attribute, the elements of a sequence-valued            *)
+(* attribute, the keys and the values of a map-valued attribute, the node list of a target, the key of an   *)
+(* entry and of an attribute - it enumerates the node kinds that can stand there (scalar, null, sequence,   *)
+(* mapping, empty or not, nested one level deeper) with the verdict class:                                  *)
+(*   a sequence / mapping / null where the loader demands a scalar (or a node list) is an "error";          *)
+(*   what a correctly kinded value MEANS to the tool is the tool's business ("open"), except for the        *)
+(*   documented uses (args as string or list, env as map, inputs / outputs / target node lists,              *)
+(*   description as string), which must load.                                                               *)
 EXTENDS Integers, Sequences, TLC, Json, FiniteSets
-CONSTANT Depth
+CONSTANTS Depth,       \* family "sections": deviations from a canonical document
+          Family       \* "sections" | "values"
 VARIABLES shape, verdict
 
 Canon == <<"client", "tools", "targets", "default", "nodes", "commands">>
@@ -64,15 +75,73 @@ Verdict(sh) ==
   ELSE IF \E j \in 1..Len(sh) : ClassOf(sh[j][1], sh[j][2]) = "open" THEN "open"
   ELSE "loads"
 
-Init == shape \in Domain /\ verdict = Verdict(shape)
+-----------------------------------------------------------------------------
+(* family "values" *)
+(* what can stand where a scalar is expected inside a collection:                                            *)
+(*   "s" scalar   "n" null (an empty value; llvm::yaml reads "~" as a plain scalar)   "q" [a]   "eq" []   "m" {a: b}   "em" {}  *)
+(* (a flow sequence cannot hold an empty element, so "n" appears as a map value and as a whole attribute value only)    *)
+ElemKinds == {"s", "n", "q", "eq", "m", "em"}
+SeqElemKinds == ElemKinds \ {"n"}
+KeyKinds  == {"s", "q", "m"}                                   \* key of an inner mapping: scalar, [a], {a: b}
+SeqEls == UNION { [1..n -> SeqElemKinds] : n \in 0..2 }
+MapEntry == KeyKinds \X ElemKinds
+MapEls == {<<>>} \cup { <<x>> : x \in MapEntry } \cup { << <<"s", "s">>, x >> : x \in MapEntry } \cup { << x, <<"s", "s">> >> : x \in MapEntry }
+Values == { [top |-> "scalar", el |-> <<>>], [top |-> "null", el |-> <<>>] }
+          \cup { [top |-> "seq", el |-> e] : e \in SeqEls } \cup { [top |-> "map", el |-> e] : e \in MapEls }
+
+(* the places: <<section, attribute>>; "x-attr" is an attribute no tool knows; "#entry" / "#attr" are the KEY of *)
+(* an entry of the section / of an attribute inside an entry (value shapes: only the key kinds q, m)            *)
+AttrSites == { <<"commands", a>> : a \in {"args", "env", "deps", "description", "inputs", "outputs", "x-attr"} }
+        \cup { <<"tools", "x-attr">> }
+        \cup { <<"nodes", a>> : a \in {"is-virtual", "content-exclusion-patterns", "must-scan-after-paths", "x-attr"} }
+        \cup { <<"targets", "#nodes">> }
+KeySites == { <<sec, "#entry">> : sec \in {"commands", "tools", "nodes", "targets"} } \cup { <<sec, "#attr">> : sec \in {"commands", "tools", "nodes"} }
+KeyValues == { [top |-> "seq", el |-> <<>>], [top |-> "map", el |-> <<>>] }
+
+NodeList(site) == site \in { <<"commands", "inputs">>, <<"commands", "outputs">>, <<"targets", "#nodes">> }
+ScalarOnly(site) == site = <<"commands", "description">>
+AllScalar(v) == /\ v.top # "null"
+                /\ (v.top = "seq" => \A i \in 1..Len(v.el) : v.el[i] = "s")
+                /\ (v.top = "map" => \A i \in 1..Len(v.el) : v.el[i] = <<"s", "s">>)
+(* documented uses that must load *)
+Documented(site, v) == \/ (site = <<"commands", "args">> /\ (v.top = "scalar" \/ (v.top = "seq" /\ Len(v.el) >= 1)))
+                       \/ (site = <<"commands", "env">> /\ v.top = "map")
+ValueVerdict(site, v) ==
+  IF site \in KeySites THEN "error"                                           \* a key that is not a scalar
+  ELSE IF NodeList(site) THEN (IF v.top = "seq" /\ AllScalar(v) THEN "loads" ELSE "error")
+  ELSE IF ScalarOnly(site) THEN (IF v.top = "scalar" THEN "loads" ELSE "error")
+  ELSE IF ~AllScalar(v) THEN "error"                                         \* a collection / null where a scalar must stand
+  ELSE IF Documented(site, v) THEN "loads"
+  ELSE "open"
+ValueDomain == { <<site, v>> : site \in AttrSites, v \in Values } \cup { <<site, v>> : site \in KeySites, v \in KeyValues }
+
+Init == \/ /\ Family = "sections"
+           /\ shape \in Domain
+           /\ verdict = Verdict(shape)
+        \/ /\ Family = "values"
+           /\ shape \in ValueDomain
+           /\ verdict = ValueVerdict(shape[1], shape[2])
 Next == FALSE /\ UNCHANGED <<shape, verdict>>
-Emit == PrintT(<<"CASE", ToJson([shape |-> shape, verdict |-> verdict])>>)
+Emit == PrintT(<<"CASE", ToJson(IF Family = "sections" THEN [shape |-> shape, verdict |-> verdict]
+                                ELSE [sec |-> shape[1][1], attr |-> shape[1][2], v |-> shape[2], verdict |-> verdict])>>)
 
 (* properties of the specification: the documented example layout loads; a document that loads has every    *)
 (* section at most once and in the documented order; a document without a leading client section is an error *)
 FullDocumentLoads == Verdict(Pick(2..6)) = "loads" /\ Verdict(Pick({})) = "loads"
 LoadsImpliesCanonical ==
-  verdict = "loads" => /\ shape[1][1] = "client"
+  (Family = "sections" /\ verdict = "loads") => /\ shape[1][1] = "client"
                        /\ \A i, j \in 1..Len(shape) : i < j => Idx(shape[i][1]) < Idx(shape[j][1])
-ClientRequired == (Len(shape) = 0 \/ shape[1] # <<"client", "ok">>) => verdict \in {"error", "open"}
+ClientRequired == (Family = "sections" /\ (Len(shape) = 0 \/ shape[1] # <<"client", "ok">>)) => verdict \in {"error", "open"}
+
+(* family "values": a collection or null nested where the loader demands a scalar is an error at EVERY place;     *)
+(* every place has shapes of each verdict it can have (the enumeration is not vacuous)                           *)
+NestedWrongKindIsError ==
+  (Family = "values" /\ shape[1] \in AttrSites) =>
+     LET v == shape[2] IN
+      ((v.top = "seq" /\ \E i \in 1..Len(v.el) : v.el[i] # "s") \/ (v.top = "map" /\ \E i \in 1..Len(v.el) : v.el[i] # <<"s", "s">>) \/ v.top = "null")
+        => verdict = "error"
+EveryPlaceJudged ==
+  /\ \A site \in AttrSites : \E v \in Values : ValueVerdict(site, v) = "error"
+  /\ \A site \in AttrSites : \E v \in Values : ValueVerdict(site, v) # "error"
+ASSUME EveryPlaceJudged
 =============================================================================
